@@ -1,18 +1,30 @@
-import H2T.Css.Style
+import H2T.Lemmas.CssTotal
 
 /-! # C17 — CSS never breaks rendering; insignificant CSS syntax does not matter
 
 Status: **partial**.  Proved, each for *all* inputs: property names and hex digits are case-insensitive at the
 character level; a declaration value never swallows a `;` or a `}` (fix b6b3bed: `p{color:red}` no longer ends
 the sheet); any number of semicolons separates declarations and may end a block (fixes 27eb4ee, 9036316);
-`:nth-child` arguments never make the parser panic (fix 77b1b03: they fail the parse instead); the style-sheet
-loop has a result for every input within its fuel, and that fuel is its input length, so `hang` can only come
-from the at-rule skipper.  The global statement "every syntactic variant of every sheet styles identically"
+`:nth-child` arguments never make the parser panic (fix 77b1b03: they fail the parse instead); **adding CSS is total**:
+every token consumes input (`token_consumes_input`, for all 20 token kinds incl. escapes, strings, numbers with units,
+CDO/CDC), so the at-rule skipper always returns and `add_css` yields rules or a parse error for every string — it never
+hangs (`add_css_total`; before fix ca75076 a lone `#` refuted this) and cannot panic by construction (the parser's
+result type has no such outcome).  The global statement "every syntactic variant of every sheet styles identically"
 (`variants_equiv_full`) needs a printer/parser round-trip for the whole grammar; it is decided by correspondence
 and by the variant oracle, and is *refuted* for unparsable rule sets between rules (a known finding). -/
 
 namespace H2T.C17
 open H2T.Css
+
+/-- **every token consumes input**: the tokenizer never returns the position it started from -/
+theorem token_consumes_input (text rest : Inp) (t : Tok) (h : parseToken text = some (rest, t)) : rest.length < text.length :=
+  parseToken_lt text rest t h
+
+/-- **`add_css` is total**: rules or a parse error, for every string -/
+theorem add_css_total (css : Inp) : (∃ rs, doAddCss css = .ok rs) ∨ doAddCss css = .err := doAddCss_no_hang css
+
+/-- skipping an unknown at-rule always returns (the shape that used to hang: `@x # ;`) -/
+theorem at_rule_skipper_returns (text : Inp) : parseAtRule text ≠ .hang := parseAtRule_no_hang text
 
 /-- **Full statement** (not proved; decided by correspondence + search): two sheets that the variant printers
     of the harness derive from the same structured sheet give the same rules. -/
